@@ -205,7 +205,7 @@ func genC08(rt *rapid.T, thorough bool) c08Case {
 		cfg.MaxDepth = 2
 		cfg.PPost, cfg.PCatch, cfg.PVary, cfg.PAbsent, cfg.PJunk, cfg.PTestSat, cfg.POpts = 0.15, 0.3, 0.4, 0.15, 0.08, 0.6, 0.15
 		cfg.NoDataTests = true
-		cfg.PLong = rapid.SampledFrom([]float64{0, 0.1, 0.5}).Draw(rt, "plong") // long slices: growth paths of caches and buffers
+		cfg.PLong = rapid.SampledFrom([]float64{0, 0.05, 0.2}).Draw(rt, "plong") // long slices: growth paths of caches and buffers
 		g := model.NewGen(rt, cfg)
 		root := g.GenNode(cfg.MaxDepth, true)
 		root.Number()
@@ -233,7 +233,7 @@ func genC08(rt *rapid.T, thorough bool) c08Case {
 		}
 		c.Schemas = append(c.Schemas, s)
 	}
-	ng := rapid.SampledFrom([]int{8, 16, 16, 32}).Draw(rt, "goroutines")
+	ng := rapid.SampledFrom([]int{8, 16, 16, 24}).Draw(rt, "goroutines")
 	for g := 0; g < ng; g++ {
 		var plan []c08Step
 		for k, n := 0, rapid.IntRange(5, 25).Draw(rt, "plen"); k < n; k++ {
@@ -243,7 +243,7 @@ func genC08(rt *rapid.T, thorough bool) c08Case {
 		}
 		c.Plans = append(c.Plans, plan)
 	}
-	c.Rounds = 8
+	c.Rounds = 5
 	if thorough {
 		c.Rounds = 20
 	}
@@ -256,6 +256,9 @@ func growLists(v *model.Val, n int) {
 	if len(v.L) >= 17 {
 		for i := 0; len(v.L) < n; i++ {
 			v.L = append(v.L, v.L[i])
+		}
+		if len(v.L) > n {
+			v.L = v.L[:n] // long lists have exactly the workload's length (bounded cost under the race detector)
 		}
 	}
 	for i := range v.L {
@@ -301,7 +304,7 @@ func TestC08(t *testing.T) {
 		"random schedules only: the harness does not own the scheduler; a schedule-dependent failure is reported with the workload, not with a replayable interleaving",
 		"PostTransforms are kept only on schemas none of whose inputs produce issues (otherwise their effect is visit-order dependent by the documented gating)")
 	defer h.Finish()
-	hh.Sub(h, "workloads", h.N(150, 400), func(rt *rapid.T) c08Case {
+	hh.Sub(h, "workloads", h.N(100, 300), func(rt *rapid.T) c08Case {
 		c := genC08(rt, h.Thorough())
 		stripGatedPosts(&c)
 		return c
